@@ -317,12 +317,29 @@ func (r *runner) conc(t []string) string {
 	evs := make([][]event, len(threads)+1)
 	var wg sync.WaitGroup
 	start := make(chan struct{})
+	// a spinning barrier before every round of ops, so that the k-th ops of all
+	// threads are invoked at (nearly) the same moment
+	rounds := 0
+	for _, ops := range threads {
+		if len(ops) > rounds {
+			rounds = len(ops)
+		}
+	}
+	arrived := make([]atomic.Int32, rounds)
+	nth := int32(len(threads))
 	for ti, ops := range threads {
 		wg.Add(1)
 		go func(ti int, ops []op) {
 			defer wg.Done()
 			<-start
-			for k, o := range ops {
+			for k := 0; k < rounds; k++ {
+				arrived[k].Add(1)
+				for spin := 0; arrived[k].Load() < nth && spin < 2000000; spin++ {
+				}
+				if k >= len(ops) {
+					continue
+				}
+				o := ops[k]
 				inv := clock.Add(1)
 				ans := r.exec(o)
 				ret := clock.Add(1)
